@@ -5,6 +5,7 @@
 package vhdb
 
 import (
+	"encoding/json"
 	"fmt"
 	"os"
 	"path/filepath"
@@ -112,3 +113,79 @@ func WebhookRows(db *sqlx.DB) []dto.DbWebhook {
 
 // WriteCount returns how many write transactions were committed so far (symbolic mode only; natively 0).
 func WriteCount(db *sqlx.DB) int { return 0 }
+
+type wsParam struct {
+	Name string `json:"name"` // "" for positional
+	Idx  int    `json:"idx"`
+	Kind string `json:"kind"` // str int time bool
+	List bool   `json:"list"`
+}
+
+type wsStmt struct {
+	SQL    string    `json:"sql"`
+	Params []wsParam `json:"params"`
+}
+
+func loadWS(table string) []wsStmt {
+	dir := os.Getenv("VH_WORK")
+	if dir == "" {
+		dir = "/verif/work"
+	}
+	b, err := os.ReadFile(filepath.Join(dir, "writestmts-"+table+".json"))
+	if err != nil {
+		panic(vh.Diverged{Why: "write-statement list not available: " + err.Error()})
+	}
+	var out []wsStmt
+	if err := json.Unmarshal(b, &out); err != nil {
+		panic(vh.Diverged{Why: err.Error()})
+	}
+	return out
+}
+
+// NumWriteStatements returns how many SQL statements of the working tree write the given table
+// (found by the executor among the statement constants of the database packages; natively the
+// list is read from the file the executor wrote).
+func NumWriteStatements(table string) int { return len(loadWS(table)) }
+
+func wsValue(k string) any {
+	switch k {
+	case "str":
+		return vh.NondetStr("arg")
+	case "bool":
+		return vh.NondetBool("arg")
+	case "time":
+		return vh.NondetTime("arg")
+	}
+	return vh.NondetI64("arg")
+}
+
+// ExecWriteStatement executes the i-th such statement with arbitrary arguments.
+func ExecWriteStatement(db *sqlx.DB, table string, i int) {
+	st := loadWS(table)[i]
+	named := map[string]any{}
+	var pos []any
+	for _, p := range st.Params {
+		var v any
+		if p.List {
+			v = []any{wsValue(p.Kind), wsValue(p.Kind)}
+		} else {
+			v = wsValue(p.Kind)
+		}
+		if p.Name != "" {
+			named[p.Name] = v
+		} else {
+			pos = append(pos, v)
+		}
+	}
+	var err error
+	if len(named) > 0 {
+		_, err = db.NamedExec(st.SQL, named)
+	} else {
+		q, args, ierr := sqlx.In(st.SQL, pos...)
+		if ierr != nil {
+			panic(vh.Diverged{Why: ierr.Error()})
+		}
+		_, err = db.Exec(db.Rebind(q), args...)
+	}
+	_ = err // a failing statement changes nothing
+}
